@@ -1018,7 +1018,7 @@ class SVG:
         self._update_etree()
 
         good_ns = {svgns(), xlinkns()}
-        if self.svg_root.nsmap[None] == svgns():
+        if self.svg_root.nsmap.get(None) == svgns():
             good_ns.add(None)
 
         el_to_rm = []
@@ -1030,7 +1030,9 @@ class SVG:
                 continue
             for attr in el.attrib:
                 ns, _ = splitns(attr)
-                if ns not in good_ns:
+                # an attribute without prefix is in no namespace, whatever the default
+                # namespace of the document is: it belongs to its (svg) element
+                if ns is not None and ns not in good_ns:
                     attr_to_rm.append(attr)
             for attr in attr_to_rm:
                 del el.attrib[attr]
